@@ -418,15 +418,18 @@ spif_socket_check_io(spif_socket_t self)
 spif_socket_t
 spif_socket_accept(spif_socket_t self)
 {
-    spif_sockaddr_t addr;
+    struct sockaddr_storage peer;
+    spif_sockaddr_t addr = (spif_sockaddr_t) &peer;
     spif_sockaddr_len_t len;
     int newfd;
     spif_socket_t tmp;
 
     ASSERT_RVAL(!SPIF_SOCKET_ISNULL(self), (spif_socket_t) NULL);
 
-    addr = SPIF_ALLOC(sockaddr);
-    len = SPIF_SIZEOF_TYPE(sockaddr);
+    /* Room for a peer address of either family, zeroed:  the kernel does not
+       terminate a UNIX-domain path and writes nothing at all for an unnamed peer. */
+    memset(&peer, 0, sizeof(peer));
+    len = sizeof(peer) - 1;
     do {
         newfd = accept(self->fd, addr, &len);
     } while ((newfd < 0) && ((errno == EAGAIN) || (errno == EWOULDBLOCK)));
@@ -453,7 +456,6 @@ spif_socket_accept(spif_socket_t self)
     } else if (SPIF_SOCKET_FLAGS_IS_SET(self, SPIF_SOCKET_FLAGS_FAMILY_UNIX)) {
         tmp->remote_url = spif_url_new_from_unixaddr((spif_unixsockaddr_t) addr);
     }
-    SPIF_DEALLOC(addr);
     if (SPIF_SOCKET_FLAGS_IS_SET(self, SPIF_SOCKET_FLAGS_NBIO)) {
         spif_socket_set_nbio(tmp);
     }
